@@ -76,14 +76,36 @@ def r1_delegation(prog, rep: Report, fam: Family, mut: Cls, lines: str):
             entry = st.targets[0].id
     ok = False
     if entry:
-        for st in walk_own(g.node):
-            if isinstance(st, ast.If) and isinstance(st.test, ast.Call) and src(st.test.func) == "isinstance" \
-                    and src(st.test.args[0]) == entry and src(st.test.args[1]) == "str":
-                ret_entry = any(isinstance(r, ast.Return) and src(r.value) == entry for r in st.body)
-                rest = [r for r in returns_of(g.node) if not any(r is x for s in st.body for x in ast.walk(s))]
-                ret_read = any(isinstance(r.value, ast.Call) and isinstance(r.value.func, ast.Attribute)
-                               and r.value.func.attr == fam.raw_reader and [src(a) for a in r.value.args] == [n] for r in rest)
-                ok = ret_entry and ret_read
+        # path analysis: on the paths where the entry is known to be a str it is returned as it is, on the others the line is read
+        # through the raw reader with the same index (however the isinstance test is oriented or nested)
+        class _RP(Client):
+            rets: List[Tuple[str, str]] = []
+
+            def should_inline(s_, func, call, ctx):
+                return False
+
+            def refine(s_, test, state, ctx):
+                if isinstance(test, ast.Call) and src(test.func) == "isinstance" and len(test.args) == 2 and src(test.args[0]) == entry:
+                    t_ = src(test.args[1])
+                    if t_ == "str":
+                        return (("str",),), (("off",),)
+                    if t_ == "int":
+                        return (("off",),), (("str",),)
+                return (state,), (state,)
+
+            def event(s_, kind, node, state, ctx):
+                if kind == "return" and node.value is not None:
+                    v = node.value
+                    what = "entry" if src(v) == entry else \
+                        "read" if (isinstance(v, ast.Call) and isinstance(v.func, ast.Attribute) and v.func.attr == fam.raw_reader
+                                   and [src(a) for a in v.args] == [n]) else "other"
+                    s_.rets.append((state[0], what))
+                return (state,)
+        rp = _RP()
+        rp.rets = []
+        Interp(prog, rp).run(g, {("?",)}, mut)
+        got = set(rp.rets)
+        ok = ("str", "entry") in got and ("off", "read") in got and all(x in (("str", "entry"), ("off", "read")) for x in got)
     index_guards(prog, rep, mut, "C12.R1")
     rep.check("C12.R1", g, "read-path", ok, f"returns self.{lines}[n] when it is a str, else reads line n through its offset",
               "the mutable read path does not discriminate `isinstance(entry, str)` between in-memory content and a file offset",
@@ -149,6 +171,8 @@ def r2_tagged(prog, rep: Report, fam: Family, mut: Cls, rec: Cls, lines: str):
                         and isinstance(node.func.value, ast.Call) and src(node.func.value.func) == "super":
                     guarded = any(k[0] == r and "record_class" in k[1] for k in state)
                     payload = node.args[-1] if node.args else None
+                    if isinstance(payload, ast.Name):
+                        payload = Flow(ctx.func.node).expand(payload)      # line = r.save(); super().__setitem__(i, line)
                     saved = isinstance(payload, ast.Call) and isinstance(payload.func, ast.Attribute) and payload.func.attr == "save" \
                         and src(payload.func.value) == r and not payload.args
                     idx_ok = len(node.args) == 2 and src(node.args[0]) == f.params[1]
@@ -299,6 +323,8 @@ def record_save_check(prog, rep: Report, rule: str, rec: Cls, w: Func, lines: st
     ok, why = False, "record save does not call the writer once"
     if len(calls) == 1 and len(calls[0].args) == 3:
         g = calls[0].args[0]
+        from ..util import as_comprehension
+        g = as_comprehension(prog, rec, rs, g) or g        # a local, or a generator helper whose body is the same walk
         why = f"`{src(g)}` is not an index-aligned walk of self.{lines} (offset entries read through the raw reader, str entries as they are)"
         if isinstance(g, (ast.GeneratorExp, ast.ListComp)) and len(g.generators) == 1 and not g.generators[0].ifs:
             gen = g.generators[0]
